@@ -124,6 +124,9 @@ pub fn gen_grammar(rng: &mut Rng, idx: usize) -> (Gram, Vec<Vec<u8>>) {
 pub fn families() -> Vec<(Gram, Vec<&'static str>)> {
     vec![
         (Gram::Lark("start: \"x\" T \"1\" | \"y\" T \"2\"\nT: /[a-z]+/\n".into()), vec!["xabc1", "yab2", "a1", "a2"]),
+        // tokens that span three terminals, two of them sharing the middle one under different first terminals
+        // (rows pushed for one token must not be re-used for a sibling token in the same trie walk)
+        (Gram::Lark("start: \"a\" \"b\" \"x\" | \"c\" \"b\" \"y\" | \"d\" \"b\" (\"x\" | \"z\")\n".into()), vec!["abx", "cby", "cbx", "aby", "dbz", "dbx", "bx", "cb", "abz"]),
         (Gram::Lark("start: A B | C D\nA: \"p\"\nC: \"q\"\nB: /[0-9]+x/\nD: /[0-9]+y/\n".into()), vec!["p12x", "q34y", "2x", "4y"]),
         (Gram::Lark("start: item+\nitem: \"a\" | \"bc\" | \"(\" item* \")\"\n".into()), vec!["a(bc)a", "((a))", "bc(", ")a"]),
         (Gram::Lark("start: NUM (\",\" NUM)*\nNUM: /[0-9]{1,3}/\n".into()), vec!["12,345,6", ",12", "3,"]),
